@@ -1,2 +1,91 @@
-(* C06 — placeholder until the well-formedness theorems are pinned. *)
-From JV Require Import Bytes Tables TextTok TextTape.
+(* C06 — every successfully parsed tape is structurally sound.  TEXT HALF (theorem names
+   prefixed C06_text_); the binary half is appended below by the binary-tape family.
+   Statements only; every proof is [exact lemma].
+
+   tape_wf (TextTapeWf.v) :=
+     links_fwd  : every Array{end=e}/Object{end=e} at i has i < e < |t| and t[e] = End i
+     links_back : every End j at e has t[j] a container whose end is e
+     nest_ok t 0 [] = true : the open/close structure is a Dyck word — defined by the recursive
+                  stack checker [nest_ok] (containers push their index, End j must find j on top)
+     no_zero    : no container has end = 0, no End has index 0.
+   tape_wfb is the executable checker (the one the harness-side oracle mirrors). *)
+From JV Require Import Bytes Tables TextTok TextTape TextTapeWf.
+From JV.proofs Require Import TextTapeWfProofs TextTapeInvProofs TextTapeScalarProofs.
+Open Scope nat_scope.
+
+(* ALL byte strings: stray `}`, missing `}`, mixed containers, `{}` ghosts, parameters, headers *)
+Theorem C06_text_parse_wf : forall input t bom, parse input = Ok (t, bom) -> tape_wf t.
+Proof. exact parse_wf. Qed.
+Print Assumptions C06_text_parse_wf.
+
+(* the text-tape part of C05: no index / len-k / insert / split_at panic site of the model is
+   reachable, and the loop terminates within the fuel 2*|input|+8 the model is run with
+   (measure: 2*|data| + 1 in KeyValueSeparator/ParseOpen, strictly decreasing) *)
+Theorem C06_text_no_crash : forall input,
+  match parse input with Panic _ | OOB _ | OutOfFuel => False | _ => True end.
+Proof. exact parse_no_crash. Qed.
+Print Assumptions C06_text_no_crash.
+
+(* the loop invariant itself (DESIGN.md A.1, I1-I4), arm by arm *)
+Theorem C06_text_step_invariant : forall s, Inv s ->
+  match step s with
+  | Next s' => Inv s' /\ mu s' < mu s
+  | Done t => tape_wf t
+  | Fail _ => True
+  | Crash _ => False
+  end.
+Proof.
+  intros s H. pose proof (step_post s H) as P.
+  destruct (step s); cbn [post] in P; auto. apply closed_tape_wf. exact P.
+Qed.
+Print Assumptions C06_text_step_invariant.
+
+(* the boolean checker decides tape_wf *)
+Theorem C06_text_wfb_spec : forall t, tape_wfb t = true <-> tape_wf t.
+Proof. exact tape_wfb_spec. Qed.
+Print Assumptions C06_text_wfb_spec.
+
+(* the recursive stack checker (with the link conditions) and the inductive grammar [closed]
+   define the same tapes *)
+Theorem C06_text_grammar_iff_wf : forall t, tape_wf t <-> closed 0 t.
+Proof. exact tape_wf_iff_closed. Qed.
+Print Assumptions C06_text_grammar_iff_wf.
+
+Theorem C06_text_parse_grammar : forall input t bom, parse input = Ok (t, bom) -> closed 0 t.
+Proof. exact parse_closed. Qed.
+Print Assumptions C06_text_parse_grammar.
+
+(* every scalar token (Unquoted, Quoted, Parameter, UndefinedParameter, Header) is a slice
+   input[a .. a+|s|) of the input, and the start offsets a are strictly increasing in tape order
+   ([scalars input lo t hi], TextTapeWf.v; a quoted scalar's slice is its content without the
+   quotes).  The model's scanners are the real ones: the offsets are reconstructed from the
+   suffix structure of the data (every scanner returns a suffix and consumes >= 1 byte). *)
+Theorem C06_text_scalars_in_input : forall input t bom,
+  parse input = Ok (t, bom) -> scalars_in_input input t.
+Proof. exact parse_scalars. Qed.
+Print Assumptions C06_text_scalars_in_input.
+
+(* the whole text half in one statement *)
+Theorem C06_text_parse_sound : forall input t bom,
+  parse input = Ok (t, bom) -> tape_wf t /\ scalars_in_input input t.
+Proof. intros input t bom H. split; [exact (parse_wf _ _ _ H)|exact (parse_scalars _ _ _ H)]. Qed.
+Print Assumptions C06_text_parse_sound.
+
+(* non-vacuity: `a={b=c {} d<e} f={g=h` is accepted (mixed container, ghost, missing closer) with
+   containers on the tape; and the checker does reject broken tapes *)
+Example C06_text_nonvacuous :
+  exists t, parse [97;61;123;98;61;99;32;123;125;32;100;60;101;125;32;102;61;123;103;61;104]%N = Ok (t, false)
+            /\ existsb (fun x => match x with TArray _ _ | TObject _ _ => true | _ => false end) t = true
+            /\ tape_wfb t = true.
+Proof. eexists. split; [vm_compute; reflexivity|]. split; vm_compute; reflexivity. Qed.
+
+Example C06_text_checker_rejects :
+  tape_wfb [TUnquoted []; TArray 3 false; TEnd 1] = false /\
+  tape_wfb [TUnquoted []; TArray 2 false; TEnd 0] = false /\
+  tape_wfb [TUnquoted []; TArray 3 false; TObject 2 false; TEnd 1; TEnd 2] = false /\
+  tape_wfb [TArray 1 false; TEnd 0] = false.
+Proof. repeat split; vm_compute; reflexivity. Qed.
+
+Example C06_text_scalars_rejects :
+  ~ scalars_in_input [97; 98]%N [TUnquoted [98]%N; TUnquoted [97]%N].
+Proof. exact scalars_rejects_swapped. Qed.
